@@ -40,6 +40,7 @@ from aiokafka.protocol.fetch import FetchRequest  # noqa: E402
 from aiokafka.structs import TopicPartition  # noqa: E402
 
 CL = None            # current cluster (event sink)
+FETCH_SENT_HOOK = {"fn": None}   # optional callback (partition, offset) right after a c_fetch_sent event
 TASKS = {}           # asyncio task -> user task index
 CALLS = {}           # user task index -> current API call description
 
@@ -110,6 +111,8 @@ def install_wrappers():
                 for topic, parts in req.topics:
                     for (partition, offset, _mb) in parts:
                         CL.ev("c_fetch_sent", p=partition, o=offset, node=node_id)
+                        if FETCH_SENT_HOOK["fn"] is not None:
+                            FETCH_SENT_HOOK["fn"](partition, offset)
         return res
 
     async def send(self, node_id, request, *a, **kw):
